@@ -361,60 +361,68 @@ class Builder:
             acts, obs = ["n"], ["|", "n=" + hx(name_text(rec.name))]
             yielded.append(id(rec))
             is_opt = rec.t == G.T_OPT
-            choice = "read"
-            if mode == "delete":
-                choice = "X" if (delete_set is not None and id(rec) in delete_set) else "read"
-            elif mode == "mixed" and not is_opt and c_safe:
-                # only what the C table offers, within its documented preconditions
-                choice = rng.choice(["read", "T", "M", "M", "X", "Merr"] + (["A", "A"] if rec.t in (G.T_A, G.T_AAAA) else []))
-            elif mode == "mixed" and not is_opt:
-                choice = rng.choice(["read", "read", "T", "A", "M", "M", "X", "V", "Merr"])
-            elif mode == "mixed" and is_opt:
-                choice = rng.choice(["read", "read", "X"])
-            if choice == "T":
-                t = rng.choice([0, 1, 2 ** 32 - 1, rng.getrandbits(32)])
-                rec.ttl = t
-                acts += ["T%d" % t, "l"]
-                obs += ["T=OK", "l=%d" % t]
-            elif choice == "A":
-                if rec.t == G.T_A:
-                    ip = bytes(rng.getrandbits(8) for _ in range(4))
-                    rec.rd = ("raw", ip)
-                    acts += ["A" + hx(ip), "i"]
-                    obs += ["A=OK", "i=" + hx(ip)]
-                elif rec.t == G.T_AAAA:
-                    ip = bytes(rng.getrandbits(8) for _ in range(16))
-                    rec.rd = ("raw", ip)
-                    acts += ["A" + hx(ip), "i"]
-                    obs += ["A=OK", "i=" + hx(ip)]
-                else:
-                    acts += ["A01020304"]
-                    obs += ["A=ERR:PropertyNotFound"]
-            elif choice == "M":
-                ln = rng.choice([1, 1, 2, 3, 4])
-                nm = [self.fresh_label()] + [rng.choice([b"example", b"COM", b"y" * rng.choice([1, 30, 62])]) for _ in range(ln - 1)]
-                if rng.random() < 0.1:
-                    nm = []
-                rec.name = nm
-                if c_safe:
-                    acts += ["M" + hx(G.wire_name(nm)), "n"]
-                    obs += ["M=OK", "n=" + hx(name_text(nm))]
-                else:
-                    acts += ["M" + hx(G.wire_name(nm)), "n", "o"]
-                    obs += ["M=OK", "n=" + hx(name_text(nm)), None]
-            elif choice == "Merr":
-                bad = rng.choice([b"\x03ab", b"\x40" + b"a" * 64 + b"\0", b"\x03a.b\0", b"\x03a\x01b\0", b"\xc0\x0c", b"", G.wire_name(G.name_of_wire_len(255))[:-1] + b"\x01a\0"])
-                acts += ["M" + hx(bad), "n"]
-                obs += ["M=ERR", "n=" + hx(name_text(rec.name))]
-            elif choice == "V":
-                acts += ["V", "n"]
-                obs += ["V=OK", "n=" + hx(name_text(rec.name))]
-            if choice == "X" and c_safe:
-                acts += ["X", "X"]
-                obs += ["X=OK", "X=ERR:VoidRecord"]
-            elif choice == "X":
-                acts += ["X", "X", "o"]
-                obs += ["X=OK", "X=ERR:VoidRecord", "o=-/-"]
+            nchoices = 1 if (mode != "mixed" or is_opt) else rng.choice([1, 1, 1, 2, 2, 3])
+            for ci in range(nchoices):
+                choice = "read"
+                if mode == "delete":
+                    choice = "X" if (delete_set is not None and id(rec) in delete_set) else "read"
+                elif mode == "mixed" and not is_opt and c_safe:
+                    # only what the C table offers, within its documented preconditions
+                    choice = rng.choice(["read", "T", "M", "M", "X", "Merr"] + (["A", "A"] if rec.t in (G.T_A, G.T_AAAA) else []))
+                elif mode == "mixed" and not is_opt:
+                    choice = rng.choice(["read", "read", "T", "A", "M", "M", "X", "V", "Merr"])
+                elif mode == "mixed" and is_opt:
+                    choice = rng.choice(["read", "read", "X"])
+                if choice == "T":
+                    t = rng.choice([0, 1, 2 ** 32 - 1, rng.getrandbits(32)])
+                    rec.ttl = t
+                    acts += ["T%d" % t, "l"]
+                    obs += ["T=OK", "l=%d" % t]
+                elif choice == "A":
+                    if rec.t == G.T_A:
+                        ip = bytes(rng.getrandbits(8) for _ in range(4))
+                        rec.rd = ("raw", ip)
+                        acts += ["A" + hx(ip), "i"]
+                        obs += ["A=OK", "i=" + hx(ip)]
+                    elif rec.t == G.T_AAAA:
+                        ip = bytes(rng.getrandbits(8) for _ in range(16))
+                        rec.rd = ("raw", ip)
+                        acts += ["A" + hx(ip), "i"]
+                        obs += ["A=OK", "i=" + hx(ip)]
+                    else:
+                        acts += ["A01020304"]
+                        obs += ["A=ERR:PropertyNotFound"]
+                elif choice == "M":
+                    ln = rng.choice([1, 1, 2, 3, 4])
+                    nm = [self.fresh_label()] + [rng.choice([b"example", b"COM", b"y" * rng.choice([1, 30, 62])]) for _ in range(ln - 1)]
+                    if rng.random() < 0.1:
+                        nm = []
+                    rec.name = nm
+                    if c_safe:
+                        acts += ["M" + hx(G.wire_name(nm)), "n"]
+                        obs += ["M=OK", "n=" + hx(name_text(nm))]
+                    else:
+                        acts += ["M" + hx(G.wire_name(nm)), "n", "o"]
+                        obs += ["M=OK", "n=" + hx(name_text(nm)), None]
+                elif choice == "Merr":
+                    bad = rng.choice([b"\x03ab", b"\x40" + b"a" * 64 + b"\0", b"\x03a.b\0", b"\x03a\x01b\0", b"\xc0\x0c", b"", G.wire_name(G.name_of_wire_len(255))[:-1] + b"\x01a\0"])
+                    acts += ["M" + hx(bad), "n"]
+                    obs += ["M=ERR", "n=" + hx(name_text(rec.name))]
+                elif choice == "V":
+                    acts += ["V", "n"]
+                    obs += ["V=OK", "n=" + hx(name_text(rec.name))]
+                if choice == "X" and c_safe:
+                    acts += ["X", "X"]
+                    obs += ["X=OK", "X=ERR:VoidRecord"]
+                elif choice == "X":
+                    acts += ["X", "X", "o"]
+                    obs += ["X=OK", "X=ERR:VoidRecord", "o=-/-"]
+                if choice in ("T", "A", "M", "Merr", "V") and not c_safe and rng.random() < 0.7:
+                    # the fixed fields of the same item, read through the same cursor right after the mutation
+                    acts += ["t", "c", "l"]
+                    obs += ["t=%d" % rec.t, "c=%d" % rec.c, "l=%d" % rec.ttl]
+                if choice == "X":
+                    break
             if choice == "X":
                 deleted_tags.append(id(rec))
                 recs.pop(pos)
